@@ -315,15 +315,15 @@ func hexCharUpper(c byte) byte {
 }
 
 var hex2intTable = func() []byte {
-	b := make([]byte, 255)
-	for i := byte(0); i < 255; i++ {
+	b := make([]byte, 256)
+	for i := 0; i < 256; i++ {
 		c := byte(0)
 		if i >= '0' && i <= '9' {
-			c = 1 + i - '0'
+			c = 1 + byte(i) - '0'
 		} else if i >= 'a' && i <= 'f' {
-			c = 1 + i - 'a' + 10
+			c = 1 + byte(i) - 'a' + 10
 		} else if i >= 'A' && i <= 'F' {
-			c = 1 + i - 'A' + 10
+			c = 1 + byte(i) - 'A' + 10
 		}
 		b[i] = c
 	}
